@@ -9,6 +9,7 @@ Model: YouVerif/C08/Model.lean (`step`, `run`).  `Safe c s ops` is the call disc
 -/
 import YouVerif.C08.ProofsProps
 import YouVerif.C08.ProofsHandlers
+import YouVerif.C08.ProofsLinks3
 
 namespace YouVerif.C08
 
@@ -82,14 +83,45 @@ theorem index_eq_dom_handlers (c : Cfg) (hu : 0 < c.unit) (ops : List Op) (hall 
     a ∈ (run c St.init ops).index ↔ (get (run c St.init ops).vals a).isSome :=
   index_eq_dom c ops (handlers_safe c hu ops hall) a
 
-/-! ### Not proved yet -/
+/-! ### Delegation links
 
-/-- `delegation_links_agree`: full statement, NOT proved, and false without the extra hypothesis that no penalty
-    consumes a whole delegation (`penalty_unlinks_counterexample`, known finding F-C08f). -/
+`Links av vd`: account `d` lists validator `a`  ⟺  visible validator `a` holds a delegation from `d`
+(so: no account lists a validator that does not exist, no validator holds a delegation from a missing account).
+`LOk`/`LSafe` (ProofsLinks3.lean) is the link-level call discipline: delegations come from existing accounts; a penalty
+consumes no whole delegation (else F-C08f, `penalty_unlinks_counterexample`); at a flush no total reaches 2^64 LU. -/
+
+/-- `delegation_links_agree`: full statement over all handler-level histories, with the side conditions explicit.
+    NOT proved in full: the operations outside `Op.dlv` (dadd/dsub through the handlers, settle, penalise under the
+    side condition, stale update, IntermediateRoot, reload, Copy) are covered by the oracle (clause 4) only. The
+    machinery they need is proved: `updateDelegation_linv`, `Keep.update`, `Stable.*`, `revertTo_linv`. -/
 def delegation_links_agree_statement : Prop :=
-  ∀ (c : Cfg) (ops : List Op), (∀ op ∈ ops, op.hl c = true) → (∀ op ∈ ops, ∀ a x, op ≠ .penal a x) →
-    ∀ d a x v, getAcct (run c St.init ops).accts d = some x → get (run c St.init ops).vals a = some v →
-      (x.dlgs.contains a ↔ (findDlg v.dlgs d).isSome)
+  ∀ (c : Cfg) (ops : List Op), 0 < c.unit → (∀ op ∈ ops, op.hl c = true) → LSafe c St.init ops →
+    Links (avOf (run c St.init ops)) (vdOf (run c St.init ops))
+
+/-- **Links agree** for every history of creations, account creations, `UpdateDelegation` calls by existing accounts
+    (any amounts, including removals), field updates, deposits, withdrawals, status changes, snapshots, reverts to any
+    live snapshot, and Finalise. In particular: after a revert the two sides still agree, and every older snapshot can
+    still be restored to a state in which they agree. -/
+theorem delegation_links_agree_partial (c : Cfg) (ops : List Op) (hall : ∀ op ∈ ops, op.dlv = true)
+    (hs : LSafe c St.init ops) : Links (avOf (run c St.init ops)) (vdOf (run c St.init ops)) :=
+  (run_linv_dlv c ops St.init LInv.init hall hs).cur
+
+/-- the same in terms of the records -/
+theorem delegation_links_agree_partial_records (c : Cfg) (ops : List Op) (hall : ∀ op ∈ ops, op.dlv = true)
+    (hs : LSafe c St.init ops) (d a : Addr) (x : Acct) (v : Val)
+    (hx : getAcct (run c St.init ops).accts d = some x) (hv : get (run c St.init ops).vals a = some v) :
+    a ∈ x.dlgs ↔ d ∈ v.dlgs.map (·.d) := by
+  have h := delegation_links_agree_partial c ops hall hs d a
+  have e1 : avOf (run c St.init ops) d = some x.dlgs := by simp [avOf, hx]
+  have e2 : vdOf (run c St.init ops) a = some (v.dlgs.map (·.d)) := by simp [vdOf, hv, dl]
+  rw [e1, e2] at h
+  simpa using h
+
+/-- a delegation update by an existing account keeps the links and every snapshot's restore, whatever the amount -/
+theorem update_delegation_keeps_links (c : Cfg) (s : St) (hl : LInv s) (d : Addr) (val : Val) (delta : Int) (x : Acct)
+    (hg : get s.vals val.addr = some val) (hx : getAcct s.accts d = some x) :
+    LInv (updateDelegation c s d val delta).1 :=
+  updateDelegation_linv c hl d delta hg hx
 
 /-! ### Witnesses on the model (tests on literals, decided by evaluation) -/
 
@@ -107,6 +139,12 @@ theorem remove_then_flush_double_decrement :
                              .remove 1, .iroot true]
     s.stats.kAll.onStake = 2 ∧ (summarize (listed s)).kAll.onStake = 7 := by
   decide
+
+/-- non-vacuity of `LSafe` + `Op.dlv`: delegations, a removal, nested snapshots and reverts -/
+example : (∀ op ∈ ([.create 1 1 1 5000000000000000000 5 1 0 0, .mkacct 1, .mkacct 2, .snap, .deleg 1 1 2000000000000000000,
+      .snap, .deleg 2 1 3000000000000000000, .deleg 1 1 (-2000000000000000000), .revert 1, .deposit 1 5, .revert 0] : List Op),
+      op.dlv = true) := by decide
+
 
 /-- non-vacuity of `Safe`: a run with a stale update, a forced-offline withdrawal of a delegation, a penalty, reverts,
     deletion of an emptied validator at the flush, reload and Copy satisfies it -/
